@@ -460,7 +460,26 @@ impl VirtualSystem {
                 let mut inode = Inode::new([]);
                 inode.permissions = mode.difference(umask);
                 let inode = Rc::new(RefCell::new(inode));
-                state.file_system.save(&path, Rc::clone(&inode))?;
+                // Create the file in the directory the parent path resolves
+                // to, so that symbolic links to directories are followed.
+                let parent = path.parent().and_then(|parent| {
+                    let mut parent = parent.as_unix_str().as_bytes().to_vec();
+                    parent.push(b'/');
+                    let parent = Path::new(UnixStr::from_bytes(&parent));
+                    state.file_system.get(parent).ok()
+                });
+                match (parent, path.file_name()) {
+                    (Some(parent), Some(name)) => {
+                        let mut parent = parent.borrow_mut();
+                        let FileBody::Directory { files } = &mut parent.body else {
+                            return Err(Errno::ENOTDIR);
+                        };
+                        files.insert(Rc::from(name), Rc::clone(&inode));
+                    }
+                    _ => {
+                        state.file_system.save(&path, Rc::clone(&inode))?;
+                    }
+                }
                 inode
             }
             Err(errno) => return Err(errno),
